@@ -73,10 +73,12 @@ class DynamicEndmarkerField(Field):
 
         orig_is_end_of_pdu = encode_state.is_end_of_pdu
         encode_state.is_end_of_pdu = False
+        item_positions: List[int] = []
         for i, item in enumerate(physical_value):
             if i == len(physical_value) - 1:
                 encode_state.is_end_of_pdu = orig_is_end_of_pdu
 
+            item_positions.append(encode_state.cursor_byte_position)
             self.structure.encode_into_pdu(item, encode_state)
         encode_state.is_end_of_pdu = orig_is_end_of_pdu
 
@@ -92,6 +94,21 @@ class DynamicEndmarkerField(Field):
             tmp_cursor = encode_state.cursor_byte_position
             self.dyn_end_dop.encode_into_pdu(self.termination_value, encode_state)
             encode_state.cursor_byte_position = tmp_cursor
+
+        # items at whose position the termination value is found
+        # would be mistaken for the end of the field when decoding
+        for i, item_pos in enumerate(item_positions):
+            try:
+                tv_candidate = self.dyn_end_dop.decode_from_pdu(
+                    DecodeState(
+                        coded_message=bytes(encode_state.coded_message),
+                        cursor_byte_position=item_pos))
+            except DecodeError:
+                continue
+            if tv_candidate == self.termination_value:
+                odxraise(
+                    f"Item {i} of dynamic endmarker field {self.short_name} cannot be "
+                    f"distinguished from the termination value", EncodeError)
 
     @override
     def decode_from_pdu(self, decode_state: DecodeState) -> ParameterValue:
